@@ -87,7 +87,13 @@ func (f *formatValidator) Validate(val interface{}) *Result {
 		result = new(Result)
 	}
 
-	if err := FormatOf(f.Path, f.In, f.Format, val.(string), f.KnownFormats); err != nil {
+	data, ok := val.(string)
+	if !ok {
+		// Applies() lets through any value of kind string, e.g. a json.Number or a named string type
+		data = reflect.ValueOf(val).String()
+	}
+
+	if err := FormatOf(f.Path, f.In, f.Format, data, f.KnownFormats); err != nil {
 		result.AddErrors(err)
 	}
 
